@@ -2,7 +2,7 @@
 import importlib
 import os
 
-EXTRACTORS = ["natives", "predtable", "syntaxtab"]   # module names under harness.extract, each with generate() -> (path, text, problems)
+EXTRACTORS = ["natives", "predtable", "syntaxtab", "libsrc"]   # module names under harness.extract, each with generate() -> (path, text, problems)
 
 
 def regenerate_all():
